@@ -223,6 +223,9 @@ def apply_ops(sf, ops):
             if sf.charts:
                 import copy
                 sf.charts.append(copy.deepcopy(sf.charts[0]))
+        elif k == "notes":
+            if sf.charts:
+                sf.charts[0].notes = op[1]
         elif k == "dropnotes":
             if sf.charts and hasattr(sf.charts[0], "pop"):
                 try:
